@@ -831,14 +831,16 @@ class KafkaClient(object):
         """
         Get the API versions supported by the given broker.
         """
-        requestId = self._next_id()
         resp = None
         api_version_failures = 0
 
-        req = KafkaCodec.encode_api_versions_request(
-            self._clientIdBytes, requestId, ApiVersionRequest(KafkaCodec.API_VERSIONS_KEY, 0)
-        )
         while self._api_versions is None and api_version_failures < 3:
+            # A correlation id per attempt: a broker client refuses an id it still
+            # remembers from an attempt that timed out after it had been sent.
+            requestId = self._next_id()
+            req = KafkaCodec.encode_api_versions_request(
+                self._clientIdBytes, requestId, ApiVersionRequest(KafkaCodec.API_VERSIONS_KEY, 0)
+            )
             try:
                 resp = yield self._send_broker_unaware_request(requestId, req)
                 self._handle_api_version_update(KafkaCodec.decode_api_versions_response(resp))
